@@ -188,6 +188,9 @@ def run_check(prop: str, tier: str, seed: int, replay: Optional[dict], *, profil
         for ext in (".v", ".vo", ".vos", ".vok", ".glob"):
             if gen2.with_suffix(ext).exists():
                 gen2.with_suffix(ext).unlink()
+    # source pins: the methods the hand model mirrors and no translator covers must be the ones it was written against
+    from translator import pins
+    pins.oblige(rep, str(core.REPO), "eql", "the evaluator model (Eql/Eval.v)")
     model_ok = core.standard_proof_steps(rep, prop, targets)
     if model_ok:
         ok_show, log = core.coq_make(["Eql/Show.vo", "Eql/ShowFrag.vo"])
